@@ -39,12 +39,13 @@ VERIF = os.path.dirname(os.path.dirname(os.path.dirname(
 
 
 def run_worker(repo, hashseed, history_seed, n_prior, thorough,
-               rename_back=None):
+               rename_back=None, acts=None):
     fd, out = tempfile.mkstemp(prefix="c19_", suffix=".pkl")
     os.close(fd)
     spec = {"package_root": repo, "harness": os.path.join(VERIF, "harness"),
             "history_seed": history_seed, "n_prior": n_prior,
-            "thorough": thorough, "out": out, "rename_back": rename_back}
+            "thorough": thorough, "out": out, "rename_back": rename_back,
+            "acts": acts}
     env = dict(os.environ)
     env["PYTHONHASHSEED"] = str(hashseed)
     env["PYTHONPATH"] = repo
@@ -81,6 +82,13 @@ def run(ctx):
         n_prior = rng.randint(3, 12)
         got, err = run_worker(repo, hs, hist, n_prior, not quick)
         runs.append((f"hashseed={hs},history={hist},prior={n_prior}", got,
+                     err))
+    # histories of mixed alpha/beta generic-index requests only
+    for k in range(3 if quick else 8):
+        hist = rng.randrange(1 << 30)
+        n_prior = rng.randint(8, 40)
+        got, err = run_worker(repo, k, hist, n_prior, not quick, acts="spin")
+        runs.append((f"hashseed={k},spin-history={hist},prior={n_prior}", got,
                      err))
     # tensor-name configuration: scratch copy of the package
     tmp = tempfile.mkdtemp(prefix="c19_pkg_")
